@@ -59,8 +59,12 @@ def has_status(driver, cmd):
             or (driver == "rcs380" and cmd in ("InSetRF", "InSetProtocol")))
 
 
+COMM_ALL_ONES = 4096         # stands for the status word FFFFFFFFh
+
+
 def quick_masks():
-    return [m for m in range(4096) if bin(m).count("1") <= 2]
+    """no flag, every single flag, every pair, all defined flags, all ones"""
+    return [m for m in range(4096) if bin(m).count("1") <= 2] + [4095, COMM_ALL_ONES]
 
 
 def faults_for(driver, cmd, final, tier):
@@ -70,7 +74,7 @@ def faults_for(driver, cmd, final, tier):
     fs = link_faults(driver)
     full = final or tier != "quick"
     if driver == "rcs380" and cmd in ("InCommRF", "TgCommRF"):
-        fs += [("CommStatus", m) for m in (quick_masks() if tier == "quick" else range(4096))]
+        fs += [("CommStatus", m) for m in (quick_masks() if tier == "quick" else range(4097))]
     if has_status(driver, cmd):
         fs += [("ChipStatus", s) for s in (range(256) if full else QUICK_PREP_STATUS)]
     if driver in PN53X_FAM and cmd in REG_READS:
@@ -108,7 +112,7 @@ def sim_fault(driver, at, k, v):
         return P.Fault(at, "regval", v)
     if k == "CommStatus":
         f = P.Fault(at, "status", 0)
-        f.kind, f.arg = "comm", R.comm_status(v)
+        f.kind, f.arg = "comm", (0xFFFFFFFF if v == COMM_ALL_ONES else R.comm_status(v))
         return f
     raise ValueError(k)
 
@@ -194,7 +198,7 @@ def op_faults_for(driver, cmd, tier):
     quick = tier == "quick"
     fs = link_faults(driver)
     if driver == "rcs380" and cmd in ("InCommRF", "TgCommRF"):
-        fs += [("CommStatus", m) for m in range(4096) if not quick or bin(m).count("1") <= 1]
+        fs += [("CommStatus", m) for m in range(4097) if not quick or bin(m).count("1") <= 1]
     if op_has_status(driver, cmd):
         fs += [("ChipStatus", s) for s in (QUICK_OP_STATUS if quick else range(256))]
     if cmd == "InListPassiveTarget":
